@@ -552,9 +552,12 @@ def classify(asm, res, contracts, unit):
         clause_text = ""
         if clause_line is not None:
             # the tag may be on the clause line or a following continuation line (multi-line clause)
-            for k in range(clause_line, min(clause_line + 12, len(asm.lines))):
+            depth = 0
+            for k in range(clause_line, min(clause_line + 16, len(asm.lines))):
+                code = asm.lines[k].split("//")[0]
+                depth += code.count("(") + code.count("{") + code.count("[") - code.count(")") - code.count("}") - code.count("]")
                 tag, tprops = ob_tags(asm.lines[k])
-                if tag or asm.lines[k].rstrip().endswith(","):
+                if tag or (depth <= 0 and code.rstrip().endswith(",")):
                     clause_text = "\n".join(asm.lines[clause_line:k + 1])
                     break
         # for postconditions the item is where the clause lives; for pre/assert the code item
